@@ -42,8 +42,8 @@ ASSUMPTIONS = [
     "(checked in every case; zoo systems are a fixed generic model + a 5 % seed-driven perturbation so that the premise "
     "and the discretisation error do not depend on the seed; Kane-Mele is used with an exchange field, CuMnAs with the "
     "Neel vector along (1,1,1), because the default models have Kramers cones / Dirac points)",
-    "NLDrude_Fermider2 (f'' form) needs about twice the linear grid density of the other forms; quick runs it on the 2D "
-    "zoo models at 2400 K only, thorough adds the 3D models at 4640 K; it is not run at 1200 K / 600 K",
+    "NLDrude_Fermider2 (f'' form) needs about twice the linear grid density of the other forms; it is run in the "
+    "thorough tier only (2D zoo models at 2400 K on (72,108), 3D models at 4640 K), not at 1200 K / 600 K",
     "k.p: one 1-band model (anisotropic mass + tilt + cubic warping, analytic derivatives) in thorough only (no FFT: "
     "30 ms per k-point); Fermi levels are limited to those whose occupied region (+8.5 kT) stays inside the k-box, "
     "otherwise the two forms differ by boundary terms; multi-band k.p models are not covered",
@@ -146,8 +146,8 @@ def plan(tier):
             for p in ALLP:
                 if p == "NLDrude2" and T != 2400:
                     continue        # the f'' form converges too slowly at low T (0.04 of the scale left at 144^2, 1200 K)
-                if p == "NLDrude2" and quick and m != "zoo2d_2":
-                    continue        # 70 CPU-s per case: quick keeps one
+                if p == "NLDrude2" and quick:
+                    continue        # 70 CPU-s per case at (72, 108): thorough only
                 add(m, p, T, GRIDS[(2, T)])
         for m, ps in BUNDLED_2D:
             if second and m != "KaneMele_odd_Z":
@@ -160,13 +160,26 @@ def plan(tier):
 
 
 def setup(tier, seed):
-    """parent process, before the fork: the first run() imports ray (several seconds); do it once"""
+    """parent process, before the fork: pay the one-time costs (ray import in the first run(), first use of every
+    calculator / formula class) once instead of once per worker"""
     import wannierberri as wb
     from wannierberri.calculators import static
-    from wbmc import berry_harness as bh, models2d
-    s = models2d.bundled("Haldane_tbm")
+    from wannierberri.smoother import FermiDiracSmoother
+    from wbmc import berry_harness as bh
+    s = build_model("zoo2d_2", seed)
+    Ef = np.linspace(-1.0, 1.0, 21)
+    sm = FermiDiracSmoother(Ef, T_Kelvin=2400, maxdE=8)
+    names = sorted({n for sea, surfs in PAIRS.values() for n in [sea] + surfs})
+    calcs = {}
+    for n in names:
+        kw = dict(Efermi=Ef, smoother=sm)
+        if n.startswith("GME_orb"):
+            kw["kwargs_formula"] = {"external_terms": False}
+        calcs[n] = getattr(static, n)(**kw)
     with bh.case_tmpdir() as tmp:
-        bh.tmp_run(s, wb.Grid(s, NK=[4, 4, 1]), {"x": static.Ohmic_FermiSea(Efermi=np.array([0.0, 0.1]), print_comment=False)}, tmp)
+        res = bh.tmp_run(s, wb.Grid(s, NK=[4, 4, 1]), calcs, tmp)
+        for n in names:
+            res.results[n].dataSmooth
 
 
 def cases(tier, seed):
